@@ -205,16 +205,24 @@ def load_known_witnesses():
     return out
 
 
-def run_harness(ctx, bins, root, name, sources_path, workers, budget_ms, batch):
+def run_harness(ctx, bins, root, name, sources_path, workers, budget_ms, batch, individual=False, par=8):
     work = ctx.subdir("work-" + name)
     ev = os.path.join(work, "events.ndjson")
     fails = os.path.join(work, "fails.json")
     stats = os.path.join(work, "stats.json")
-    r = ctx.run([bins["toolreplay"], "run", "-sources", sources_path, "-events", ev, "-fails", fails, "-stats", stats,
-                 "-root", root, "-wuffsc", bins["wuffs-c"], "-work", work, "-workers", str(workers),
-                 "-budget-ms", str(budget_ms), "-batch", str(batch), "-q"], timeout=7200)
+    cmd = [bins["toolreplay"], "run", "-sources", sources_path, "-events", ev, "-fails", fails, "-stats", stats,
+           "-root", root, "-wuffsc", bins["wuffs-c"], "-work", work, "-workers", str(workers),
+           "-budget-ms", str(budget_ms), "-batch", str(batch), "-par", str(par)]
+    if individual:
+        cmd.append("-individual")
+    r = ctx.run(cmd, timeout=4 * 3600)
     if r.returncode != 0:
         raise ToolingError("toolreplay run (%s) failed:\n%s" % (name, (r.stdout + r.stderr)[-3000:]))
+    notes = [l for l in r.stderr.splitlines() if l.startswith("toolreplay:")]
+    for l in notes[:12]:
+        ctx.log("  " + l[:300])
+    if len(notes) > 12:
+        ctx.log("  ... %d more harness notes" % (len(notes) - 12))
     return ev, json.load(open(fails)), json.load(open(stats))
 
 
@@ -392,9 +400,9 @@ def run(ctx, only_sources=None):
     ctx.log("sources: %s" % genstats["by_origin"], "deep:", deepstats["by_origin"])
 
     # 3. the real tool chain
-    ev, fails, hstats = run_harness(ctx, bins, root, "main", srcp, workers=16, budget_ms=15000, batch=4000)
+    ev, fails, hstats = run_harness(ctx, bins, root, "main", srcp, workers=16, budget_ms=30000, batch=4000)
     ctx.log("main run: %s" % hstats)
-    ev2, fails2, hstats2 = run_harness(ctx, bins, root, "deep", deepp, workers=2, budget_ms=60000, batch=8)
+    ev2, fails2, hstats2 = run_harness(ctx, bins, root, "deep", deepp, workers=1, budget_ms=60000, batch=1, individual=True, par=4)
     ctx.log("deep run: %s" % hstats2)
 
     # 4. TLC validates the recorded traces
@@ -450,7 +458,7 @@ def run(ctx, only_sources=None):
         "exhaustive": False,
     }, assumptions=[
         "gcc 12 -fsyntax-only -Werror=implicit-function-declaration stands for 'the C compiler'",
-        "watchdog: 15 s per stage (scaled with input size), a timeout counts only after an individual re-run with 4x budget in an own process",
+        "watchdog: 30 s per stage (scaled with input size), a timeout counts only after an individual re-run with 4x budget in an own process",
         "stack: Go's default 1 GB goroutine stack limit, i.e. what the real binaries have",
         "render output is capped at 256 MiB by the writer handed to render.Render (an ordinary write error beyond it)",
         "internal/cgen runs inside the freshly built wuffs-c binary (one process per checked program), all other stages in-process",
@@ -472,7 +480,7 @@ def replay(ctx, path):
     except Exception:
         s["b"] = base64.b64encode(data).decode()
     open(srcp, "w").write(json.dumps(s) + "\n")
-    ev, fails, st = run_harness(ctx, bins, root, "replay", srcp, workers=1, budget_ms=15000, batch=1)
+    ev, fails, st = run_harness(ctx, bins, root, "replay", srcp, workers=1, budget_ms=60000, batch=1, individual=True)
     print(open(ev).read())
     rej, traces = validate(ctx, "replay", ev)
     report(ctx, "replay", rej, traces, fails)
